@@ -139,18 +139,58 @@ def PS.next (st : PS) : PS :=
   | [t] => { st with toks := [eofAgain t], nexts := st.nexts + 1 }
   | [] => { st with nexts := st.nexts + 1 }
 
-def typeName : TokType → String
-  | .illegal => "illegal" | .eof => "end of line" | .ident => "identifier" | .int => "integer"
-  | .float => "float number" | .string => "string" | .rawString => "raw string"
-  | .assign => "=" | .plusAssign => "+=" | .minusAssign => "-=" | .plus => "+" | .minus => "-"
-  | .multiply => "*" | .divide => "/" | .modulo => "%" | .eq => "==" | .notEq => "!=" | .lt => "<"
-  | .gt => ">" | .lte => "<=" | .gte => ">=" | .and => "&&" | .or => "||" | .not => "!"
-  | .increment => "++" | .decrement => "--" | .comma => "," | .semicolon => ";" | .colon => ":"
-  | .dot => "." | .lparen => "(" | .rparen => ")" | .lbrace => "{" | .rbrace => "}"
-  | .lbracket => "[" | .rbracket => "]" | .function => "function" | .let_ => "let" | .if_ => "if"
-  | .else_ => "else" | .while_ => "while" | .for_ => "for" | .return_ => "return" | .true_ => "true"
-  | .false_ => "false" | .null => "undefined"
-  | .dyn n => s!"unknown({n})"
+/-- decimal digits of a natural number (for `fmt.Sprintf("unknown(%d)", tt)`) -/
+def natDigits (n : Nat) : Bytes := (Nat.toDigits 10 n).map Char.toNat
+
+/-- `Type.String()` as bytes -/
+def typeName : TokType → Bytes
+  | .illegal => [105, 108, 108, 101, 103, 97, 108]  -- illegal
+  | .eof => [101, 110, 100, 32, 111, 102, 32, 108, 105, 110, 101]  -- end of line
+  | .ident => [105, 100, 101, 110, 116, 105, 102, 105, 101, 114]  -- identifier
+  | .int => [105, 110, 116, 101, 103, 101, 114]  -- integer
+  | .float => [102, 108, 111, 97, 116, 32, 110, 117, 109, 98, 101, 114]  -- float number
+  | .string => [115, 116, 114, 105, 110, 103]  -- string
+  | .rawString => [114, 97, 119, 32, 115, 116, 114, 105, 110, 103]  -- raw string
+  | .assign => [61]  -- =
+  | .plusAssign => [43, 61]  -- +=
+  | .minusAssign => [45, 61]  -- -=
+  | .plus => [43]  -- +
+  | .minus => [45]  -- -
+  | .multiply => [42]  -- *
+  | .divide => [47]  -- /
+  | .modulo => [37]  -- %
+  | .eq => [61, 61]  -- ==
+  | .notEq => [33, 61]  -- !=
+  | .lt => [60]  -- <
+  | .gt => [62]  -- >
+  | .lte => [60, 61]  -- <=
+  | .gte => [62, 61]  -- >=
+  | .and => [38, 38]  -- &&
+  | .or => [124, 124]  -- ||
+  | .not => [33]  -- !
+  | .increment => [43, 43]  -- ++
+  | .decrement => [45, 45]  -- --
+  | .comma => [44]  -- ,
+  | .semicolon => [59]  -- ;
+  | .colon => [58]  -- :
+  | .dot => [46]  -- .
+  | .lparen => [40]  -- (
+  | .rparen => [41]  -- )
+  | .lbrace => [123]  -- {
+  | .rbrace => [125]  -- }
+  | .lbracket => [91]  -- [
+  | .rbracket => [93]  -- ]
+  | .function => [102, 117, 110, 99, 116, 105, 111, 110]  -- function
+  | .let_ => [108, 101, 116]  -- let
+  | .if_ => [105, 102]  -- if
+  | .else_ => [101, 108, 115, 101]  -- else
+  | .while_ => [119, 104, 105, 108, 101]  -- while
+  | .for_ => [102, 111, 114]  -- for
+  | .return_ => [114, 101, 116, 117, 114, 110]  -- return
+  | .true_ => [116, 114, 117, 101]  -- true
+  | .false_ => [102, 97, 108, 115, 101]  -- false
+  | .null => [117, 110, 100, 101, 102, 105, 110, 101, 100]  -- undefined
+  | .dyn n => [117, 110, 107, 110, 111, 119, 110, 40] ++ natDigits n ++ [41]
 
 def PS.addErrorAt (st : PS) (msg : Bytes) (t : Token) : PS :=
   { st with errors := st.errors ++ [{ msg := msg, sl := t.sl, sc := t.sc, el := t.el, ec := t.ec }] }
@@ -160,12 +200,13 @@ def PS.addError (st : PS) (msg : Bytes) : PS := st.addErrorAt msg st.cur
 /-- `ExpectToken` -/
 def expectToken (ty : TokType) (st : PS) : Bool × PS :=
   if st.peek.type == ty then (true, st.next)
-  else (false, st.addErrorAt (strBytes (typeName ty ++ " expected")) st.peek)
+  else (false, st.addErrorAt (typeName ty ++ strBytes " expected") st.peek)
 
-/-- the token types after a line break that continue the previous statement (`shouldInsertSemicolon`) -/
-def asiContinuation : List TokType :=
-  [.dot, .lbrace, .plus, .minus, .multiply, .divide, .modulo, .lt, .gt, .lte, .gte, .eq, .notEq,
-   .and, .or, .assign, .plusAssign, .minusAssign]
+/-- `shouldInsertSemicolon` ends with a `switch` over the peek token type. Go's `case` clauses do not
+    fall through, so of the eighteen listed clauses (`.`, `{`, `+`, … `+=`, `-=`) only the LAST one,
+    `token.MINUS_ASSIGN`, has a body (`return false`); the others are empty and control continues to
+    `return true`. The extractor reports the clauses that really return false. -/
+def asiContinuation : List TokType := [.minusAssign]
 
 def shouldInsertSemicolon (st : PS) : Bool :=
   if st.peek.type == .eof then true
